@@ -7,7 +7,7 @@ from harness import steps, world as W
 from lib.core import qlit, blit, olit, zlit
 from checks.acct import Ctx, Skip, q, pos_lit, pcfg_lit, eff_lit, ZERO_POS, close, dint_of, open_orders_of
 
-PRELUDE = 'From RQ Require Import Model.Num Model.Costs Model.Position Model.Account Model.Matcher Model.Order Model.Check.\nOpen Scope Q_scope.\n'
+PRELUDE = 'From RQ Require Import Model.Num Model.Costs Model.Position Model.Account Model.Matcher Model.Order Model.Broker Model.Check.\nOpen Scope Q_scope.\n'
 
 TICK = {'CS': 0.01, 'ETF': 0.001}
 
@@ -107,6 +107,40 @@ def ref_price(cx, oid, bar, daybar, auction):
     return bar['total_turnover'] / bar['volume'] / (ins['mult'] if ins['kind'] == 'Future' else 1.0)
 
 
+def broker_case(cx, trace):
+    """the run seen from the broker: submissions (phase, immediate matching), bars, cancels, closes -> which matcher calls, in which order, which flag"""
+    immediate = cx.cfg['base']['frequency'] == '1d' or cx.sim['matching_type'] not in ('next_bar',)
+    ids = {}
+
+    def nid(x):
+        return ids.setdefault(x, len(ids))
+    ops, calls, finals, ncall = [], [], [], {}
+    for m in trace:
+        if m['k'] == 'ev0':
+            ev = m['ev']
+            o = (m.get('payload') or {}).get('order')
+            if ev == 'ORDER_CREATION_PASS' and o and m['snap'].get('phase') != 'GLOBAL':
+                ops.append('BSubmit %s %d%%nat %s' % ('BAuction' if m['snap'].get('phase') == 'OPEN_AUCTION' else 'BTrading', nid(o['id']), 'true' if immediate else 'false'))
+            elif ev == 'BAR':
+                ops.append('BBar')
+            elif ev == 'ORDER_CANCELLATION_PASS' and o:
+                ops.append('BCancel %d%%nat' % nid(o['id']))
+            elif ev == 'AFTER_TRADING':
+                ops.append('BAfterTrading')
+        elif m['k'] == 'match0':
+            i = nid(m['order']['id'])
+            calls.append('(%d%%nat, %s, %s)' % (i, 'true' if m['auction'] else 'false', 'BAuction' if m['snap'].get('phase') == 'OPEN_AUCTION' else 'BTrading'))
+        elif m['k'] == 'match1':
+            i = nid(m['order']['id'])
+            k = ncall.get(i, 0)
+            ncall[i] = k + 1
+            if m['order']['status'] in ('FILLED', 'CANCELLED', 'REJECTED'):
+                finals.append('(%d%%nat, %d%%nat)' % (i, k))
+    if calls:
+        cx.case('match.broker', 'chk_broker_calls [%s] [%s] [%s]' % ('; '.join(finals), '; '.join(ops), '; '.join(calls)),
+                dict(n_ops=len(ops), n_calls=len(calls), immediate=immediate))
+
+
 def analyse(scn, out):
     cx = Ctx(scn, out)
     trace = cx.trace
@@ -124,6 +158,7 @@ def analyse(scn, out):
         if m['k'] == 'ev0' and m['ev'] == 'ORDER_PENDING_NEW' and m['payload'].get('order') and m['snap'].get('phase') == 'OPEN_AUCTION':
             placed_in_auction.add(m['payload']['order']['id'])
     calls_so_far = {}
+    broker_case(cx, trace)
     # ---- every matcher call
     for i0, i1 in spans:
         m0, m1 = trace[i0], trace[i1]
